@@ -443,12 +443,12 @@ func propC18(h *H) {
 		}
 		return out
 	}
-	extra := 0
-	var zeroPair [2][]Gen // optional 5th/6th tuples: +0 / -0 variants
-	if g0, g1, ok := signedZeroPair(ft, h.Sc); ok {
-		zeroPair[0], zeroPair[1] = g0, g1
-		extra = 2
+	// optional further tuples: +0 / -0 variants, one pair per floating point leaf type
+	var zeroTuples [][]Gen
+	for _, zp := range signedZeroPairs(ft, h.Sc) {
+		zeroTuples = append(zeroTuples, zp[0], zp[1])
 	}
+	extra := len(zeroTuples)
 	// a pair of non-Equal argument tuples that the derived Hash maps to the same bucket
 	var collide [][]Gen
 	if hf := h.F("hash"); hf.IsValid() && nin > 0 {
@@ -461,7 +461,7 @@ func propC18(h *H) {
 		}
 		var gs []Gen
 		if t-nt < extra {
-			gs = zeroPair[t-nt]
+			gs = zeroTuples[t-nt]
 		} else {
 			gs = collide[t-nt-extra]
 		}
@@ -626,36 +626,94 @@ func propC18(h *H) {
 
 // signedZeroPair looks for a float leaf in the first parameter that has one
 // and returns two argument tuples that differ only in the sign of that zero.
-func signedZeroPair(ft reflect.Type, sc Scope) ([]Gen, []Gen, bool) {
+// signedZeroPairs returns, per floating point leaf type reachable in the
+// parameters (float32, float64, complex64, complex128), one pair of argument
+// tuples that are structurally equal but differ in the sign of a zero.
+func signedZeroPairs(ft reflect.Type, sc Scope) [][2][]Gen {
 	nin := ft.NumIn()
+	var out [][2][]Gen
+	seen := map[string]bool{}
 	for i := 0; i < nin; i++ {
 		if !containsFloat(ft.In(i), map[reflect.Type]bool{}) {
 			continue
 		}
 		sc2 := sc
-		sc2.Vmax = 200
+		sc2.Vmax = 300
 		p := Pool(ft.In(i), sc2)
-		// find two pool values that are structurally equal but differ in representation (sign of zero)
-		for a := 0; a < len(p); a++ {
-			for b := a + 1; b < len(p); b++ {
-				x, y := p[a](), p[b]()
-				if Canon(x) == Canon(y) && strings.HasPrefix(reprDiff(x, y), "float-zero-sign") {
-					g0, g1 := make([]Gen, nin), make([]Gen, nin)
-					for j := 0; j < nin; j++ {
-						pj := elemPool(ft.In(j), sc, 2)
-						g0[j], g1[j] = pj[0], pj[0]
-					}
-					g0[i], g1[i] = p[a], p[b]
-					return g0, g1, true
+		canons := make([]string, len(p))
+		for a := range p {
+			canons[a] = Canon(p[a]())
+		}
+		for a := 0; a < len(p) && len(out) < 4; a++ {
+			for b := a + 1; b < len(p) && len(out) < 4; b++ {
+				if canons[a] != canons[b] {
+					continue
 				}
+				rd := reprDiff(p[a](), p[b]())
+				if !strings.HasPrefix(rd, "float-zero-sign") || seen[fmt.Sprint(i)+rd] {
+					continue
+				}
+				seen[fmt.Sprint(i)+rd] = true
+				g0, g1 := make([]Gen, nin), make([]Gen, nin)
+				for j := 0; j < nin; j++ {
+					pj := elemPool(ft.In(j), sc, 2)
+					g0[j], g1[j] = pj[0], pj[0]
+				}
+				g0[i], g1[i] = p[a], p[b]
+				out = append(out, [2][]Gen{g0, g1})
 			}
 		}
 	}
-	return nil, nil, false
+	return out
+}
+
+// zeroValuedMaps returns, for a map type with string or integer keys, the one-
+// and two-entry maps over a small key set chosen to collide under a
+// 31-multiplier hash, every value being the zero value.
+func zeroValuedMaps(t reflect.Type) []Gen {
+	if t.Kind() != reflect.Map {
+		return nil
+	}
+	var keys []reflect.Value
+	kt := t.Key()
+	switch kt.Kind() {
+	case reflect.String:
+		for _, s := range []string{"Aa", "BB", "a", "b"} {
+			keys = append(keys, reflect.ValueOf(s).Convert(kt))
+		}
+	case reflect.Int, reflect.Int16, reflect.Int32, reflect.Int64:
+		for _, n := range []int64{0, 1, 31, 39, 961, 1000} {
+			keys = append(keys, reflect.ValueOf(n).Convert(kt))
+		}
+	default:
+		return nil
+	}
+	mk := func(ks ...reflect.Value) Gen {
+		return func() reflect.Value {
+			m := reflect.MakeMap(t)
+			for _, k := range ks {
+				m.SetMapIndex(k, reflect.Zero(t.Elem()))
+			}
+			return m
+		}
+	}
+	var out []Gen
+	for i := range keys {
+		out = append(out, mk(keys[i]))
+		for j := i + 1; j < len(keys); j++ {
+			out = append(out, mk(keys[i], keys[j]))
+		}
+	}
+	return out
 }
 
 func containsFloat(t reflect.Type, seen map[reflect.Type]bool) bool {
-	return containsKind(t, reflect.Float64, seen) || containsKind(t, reflect.Float32, map[reflect.Type]bool{})
+	for _, k := range []reflect.Kind{reflect.Float64, reflect.Float32, reflect.Complex64, reflect.Complex128} {
+		if containsKind(t, k, map[reflect.Type]bool{}) {
+			return true
+		}
+	}
+	return false
 }
 
 // findCollision searches, by brute force with the derived Hash, two argument
@@ -673,6 +731,9 @@ func findCollision(hf reflect.Value, ft reflect.Type, sc Scope) [][]Gen {
 	}
 	for i := 0; i < nin; i++ {
 		pools[i] = head(Pool(ft.In(i), sc), per)
+		// map parameters: maps of the same size over different keys with zero values
+		// (a lookup of a missing key answers with the zero value as well)
+		pools[i] = append(pools[i], zeroValuedMaps(ft.In(i))...)
 	}
 	at := hf.Type().In(0)
 	mkArg := func(gs []Gen) reflect.Value {
@@ -690,6 +751,8 @@ func findCollision(hf reflect.Value, ft reflect.Type, sc Scope) [][]Gen {
 		canon string
 	}
 	byHash := map[uint64][]cand{}
+	kinds := map[string]bool{}
+	var found [][]Gen
 	idx := make([]int, nin)
 	count := 0
 	for {
@@ -704,7 +767,13 @@ func findCollision(hf reflect.Value, ft reflect.Type, sc Scope) [][]Gen {
 			c := Canon(arg)
 			for _, o := range byHash[hv] {
 				if o.canon != c {
-					return [][]Gen{o.gs, gs}
+					// one pair per kind of difference (leaf, length, key set, ...), at most three
+					kind := Diff(mkArg(o.gs), arg).Kind
+					if !kinds[kind] && len(found) < 6 {
+						kinds[kind] = true
+						found = append(found, o.gs, gs)
+					}
+					break
 				}
 			}
 			byHash[hv] = append(byHash[hv], cand{gs, c})
@@ -723,5 +792,5 @@ func findCollision(hf reflect.Value, ft reflect.Type, sc Scope) [][]Gen {
 			break
 		}
 	}
-	return nil
+	return found
 }
